@@ -133,8 +133,35 @@ func init() {
 	})
 }
 
+// packageClauseProbe: a name in the package clause of a change is a name, also when the change declares a metavariable
+// that is spelled like it: the clause guards the file's package, and the metavariable is bound by the code alone.
+func packageClauseProbe(res *core.Result) {
+	pt := "@@\nvar p identifier\nvar x expression\n@@\n package p\n\n-register(p, x)\n+registerAll(x)\n"
+	for _, c := range []struct {
+		src  string
+		want bool
+	}{
+		{"package main\n\nfunc f() {\n\tregister(other, 2)\n}\n", false}, // not package p
+		{"package main\n\nfunc f() {\n\tregister(main, 2)\n}\n", false},
+		{"package p\n\nfunc f() {\n\tregister(other, 2)\n}\n", true}, // package p; the metavariable is bound by the code
+		{"package q\n\nfunc f() {\n\tregister(p, 2)\n}\n", false},
+	} {
+		run := applyAPI(pt, []string{c.src})[0]
+		res.Evals++
+		res.Ob("package-clause-probes", 1)
+		got := strings.Contains(run.Out, "registerAll(2)")
+		if run.Pan != "" || run.Err != "" || got != c.want || (!c.want && run.Out != c.src) {
+			res.Violate("C02/package-clause-spelled-like-a-metavariable", fmt.Sprintf("'package p' with 'var p identifier' on %q: rewritten=%v, want %v %s%s", strings.SplitN(c.src, "\n", 2)[0], got, c.want, run.Pan, run.Err), replayFiles(pt, c.src, run.Out))
+			return
+		}
+	}
+}
+
 func runC02(ctx *core.Ctx, idx int) *core.Result {
 	res := &core.Result{}
+	if idx%200 == 77 {
+		packageClauseProbe(res)
+	}
 	r := ctx.Rand("c02", idx)
 	g := gen.NewG(r)
 	stream := idx % 5
